@@ -15,6 +15,8 @@ import (
 	sdk "github.com/cosmos/cosmos-sdk/types"
 	"github.com/cosmos/cosmos-sdk/types/query"
 
+	"cctpmc/refcodec"
+
 	cctptypes "github.com/circlefin/noble-cctp/x/cctp/types"
 )
 
@@ -197,6 +199,9 @@ func c15Build(r *Run, state string) *c15Setup {
 	g.TokenPairList = append(g.TokenPairList, cctptypes.TokenPair{RemoteDomain: 7, RemoteToken: distinct32(0xC7), LocalToken: "uusdc"})  // linked pair without a messenger
 	g.PerMessageBurnLimitList = append(g.PerMessageBurnLimitList, cctptypes.PerMessageBurnLimit{Denom: "uATOM", Amount: math.NewInt(5)}) // an entry only genesis can create (handlers lower-case)
 	switch state {
+	case "burn-paused":
+		// an attester string only a genesis file can contain (decodes to zero bytes; the enable handler refuses it)
+		g.AttesterList = append(append([]cctptypes.Attester{}, g.AttesterList...), cctptypes.Attester{Attester: "0x"})
 	case "no-attesters":
 		g.AttesterList = nil
 	case "single-attester":
@@ -238,6 +243,7 @@ func c15Build(r *Run, state string) *c15Setup {
 		// one key under two spellings, the prefixed one first: two registry entries
 		do(Act("enableAttester(0xK5) by A1", &cctptypes.MsgEnableAttester{From: AttMgr.Str, Attester: Keys[4].Spell(1)}))
 		do(Act("enableAttester(K5) by A1", &cctptypes.MsgEnableAttester{From: AttMgr.Str, Attester: Keys[4].Hex}))
+		do(Act("enableAttester(K6 upper case) by A1", &cctptypes.MsgEnableAttester{From: AttMgr.Str, Attester: Keys[5].Spell(2)})) // its lower-case spelling names no entry
 	case "send-paused":
 		do(Act("pauseSendingAndReceiving by A2", &cctptypes.MsgPauseSendingAndReceivingMessages{From: Pauser.Str}))
 	case "burn-paused":
@@ -292,6 +298,7 @@ func c15Build(r *Run, state string) *c15Setup {
 		Act("disableAttester(0xK2)", &cctptypes.MsgDisableAttester{From: AttMgr.Str, Attester: Keys[1].Spell(1)}),
 		Act("disableAttester(0xK5)", &cctptypes.MsgDisableAttester{From: AttMgr.Str, Attester: Keys[4].Spell(1)}),
 		Act("disableAttester(K5)", &cctptypes.MsgDisableAttester{From: AttMgr.Str, Attester: Keys[4].Hex}),
+		Act("disableAttester(K6 lower case)", &cctptypes.MsgDisableAttester{From: AttMgr.Str, Attester: Keys[5].Hex}),
 		Act("disableAttester(K2)", &cctptypes.MsgDisableAttester{From: AttMgr.Str, Attester: Keys[1].Hex}),
 		Act("linkTokenPair(0,token0) duplicate", &cctptypes.MsgLinkTokenPair{From: TokenCtl.Str, RemoteDomain: DomEth, RemoteToken: RemoteToken0, LocalToken: "uatom"}),
 		Act("linkTokenPair(5, 31 bytes)", &cctptypes.MsgLinkTokenPair{From: TokenCtl.Str, RemoteDomain: 5, RemoteToken: distinct32(0xF0)[:31], LocalToken: "uusdc"}),
@@ -456,6 +463,10 @@ func c15From(r *Run, su *c15Setup, state string, pre []Action, base []byte, obse
 		}
 		// (3) success: typed diff is exactly the named entry; raw diff has the same size
 		postView := ViewOf(w)
+		if bad := c15OutsideNamedKey(&a, view, postView); bad != "" {
+			r.Violate("C15 "+kind+" changed a registry entry other than the one it names", fmt.Sprintf("[%s] %s: %s", state, a.Desc, bad), rp("only the named entry", bad))
+			continue
+		}
 		if p.Exp != MustFail && !viewEqual(postView, p.Next) {
 			r.Violate("C15 "+kind+" changed other (or not exactly the named) public state",
 				fmt.Sprintf("[%s] %s:\n after    %s\n expected %s", state, a.Desc, postView, p.Next), rp(p.Next.String(), postView.String()))
@@ -706,4 +717,94 @@ func c15Census(m *Run) {
 	for _, u := range undriven {
 		m.Truncate("C15 census: error-return site not driven by the alphabet: " + u)
 	}
+}
+
+// c15OutsideNamedKey: which registry entries differ between two views, and are they all the
+// entry the transaction names?  Independent of any prediction of success or failure.
+func c15OutsideNamedKey(a *Action, pre, post View) string {
+	changed := map[string][]string{}
+	setDiffKeys := func(reg string, x, y map[string]string) {
+		for k, v := range x {
+			if w, ok := y[k]; !ok || w != v {
+				changed[reg] = append(changed[reg], k)
+			}
+		}
+		for k := range y {
+			if _, ok := x[k]; !ok {
+				changed[reg] = append(changed[reg], k)
+			}
+		}
+	}
+	toSet := func(xs []string) map[string]string {
+		m := map[string]string{}
+		for _, x := range xs {
+			m[x] = "1"
+		}
+		return m
+	}
+	boolSet := func(x map[string]bool) map[string]string {
+		m := map[string]string{}
+		for k, v := range x {
+			if v {
+				m[k] = "1"
+			}
+		}
+		return m
+	}
+	msgr := func(x map[uint32]string) map[string]string {
+		m := map[string]string{}
+		for k, v := range x {
+			m[fmt.Sprint(k)] = v
+		}
+		return m
+	}
+	setDiffKeys("attesters", toSet(pre.Attesters), toSet(post.Attesters))
+	setDiffKeys("limits", pre.Limits, post.Limits)
+	setDiffKeys("pairs", pre.Pairs, post.Pairs)
+	setDiffKeys("messengers", msgr(pre.Messengers), msgr(post.Messengers))
+	setDiffKeys("used", boolSet(pre.Used), boolSet(post.Used))
+	allowed := map[string]map[string]bool{}
+	allow := func(reg string, keys ...string) {
+		if allowed[reg] == nil {
+			allowed[reg] = map[string]bool{}
+		}
+		for _, k := range keys {
+			allowed[reg][k] = true
+		}
+	}
+	if msg, err := a.Decode(); err == nil {
+		switch x := msg.(type) {
+		case *cctptypes.MsgEnableAttester:
+			allow("attesters", x.Attester)
+		case *cctptypes.MsgDisableAttester:
+			allow("attesters", x.Attester)
+		case *cctptypes.MsgSetMaxBurnAmountPerMessage:
+			allow("limits", x.LocalToken, strings.ToLower(x.LocalToken))
+		case *cctptypes.MsgLinkTokenPair:
+			allow("pairs", pairKey(x.RemoteDomain, x.RemoteToken))
+		case *cctptypes.MsgUnlinkTokenPair:
+			allow("pairs", pairKey(x.RemoteDomain, x.RemoteToken))
+		case *cctptypes.MsgAddRemoteTokenMessenger:
+			allow("messengers", fmt.Sprint(x.DomainId))
+		case *cctptypes.MsgRemoveRemoteTokenMessenger:
+			allow("messengers", fmt.Sprint(x.DomainId))
+		case *cctptypes.MsgReceiveMessage:
+			if m, err := refcodec.DecodeMessage(x.Message); err == nil {
+				allow("used", nonceKey(m.SourceDomain, m.Nonce))
+			}
+		}
+	}
+	var bad []string
+	for reg, ks := range changed {
+		for _, k := range ks {
+			if !allowed[reg][k] {
+				if reg == "attesters" {
+					k = attName(k)
+				}
+				bad = append(bad, reg+":"+k)
+			}
+		}
+	}
+	sort.Strings(bad)
+	return strings.Join(bad, ", ")
 }
